@@ -174,7 +174,7 @@ func (x *fnv) oblige(s *State, kind, label string, goal *Term, pos token.Pos, cl
 		}
 		return
 	}
-	if x.fc != nil && (x.fc.Skip[kind] || (strings.HasSuffix(kind, ".frame") && x.fc.Skip["frame"])) {
+	if x.fc != nil && (x.fc.Skip[kind] || (strings.HasSuffix(kind, ".frame") && x.fc.Skip["loopframe"])) {
 		s.Assume(goal)
 		return
 	}
